@@ -83,8 +83,23 @@ def check(ctx):
                    detail=f"{len(res.stores)} stores")
             continue
         caching += 1
-        vals = [s for s in self_stores if s[0][2] == "_value"]
-        flags = [s for s in self_stores if s[0][2] == "_outdated"]
+        def once_per_path(sts):
+            """stores on pairwise exclusive paths (if / else arms) are ONE store per path"""
+            from ..domains.keys import exclusive
+            if len(sts) > 1 and all(exclusive(a[3], b[3]) for i_, a in enumerate(sts)
+                                    for b in sts[i_ + 1:]):
+                common = set(sts[0][3])
+                for s_ in sts[1:]:
+                    common &= set(s_[3])
+                vs = [s_[1] for s_ in sts]
+                val = vs[0] if len(set(vs)) == 1 else ("tuple", tuple(vs))
+                last = max(sts, key=lambda s_: res.stores.index(s_))
+                merged = (sts[0][0], val, last[2], tuple(x for x in sts[0][3] if x in common))
+                res.stores[res.stores.index(last)] = merged
+                return [merged]
+            return sts
+        vals = once_per_path([s for s in self_stores if s[0][2] == "_value"])
+        flags = once_per_path([s for s in self_stores if s[0][2] == "_outdated"])
         extra = [s for s in self_stores if s[0][2] not in ("_value", "_outdated")]
         ok_pair = len(vals) == 1 and len(flags) == 1
         ctx.ob("C01.R1", upd, "update() stores self._value and self._outdated exactly once",
@@ -128,7 +143,7 @@ def check(ctx):
     at = ("a", SELF, "at")
     ok = (ra is not None and ra[0] == "phi" and ra[1] == at
           and is_call(ra[2], "liesel.model.nodes._unique_tuple")
-          and ra[2][2] == (sup, ("list", (at,))) and ra[3] == sup)
+          and ra[2][2] in ((sup, ("list", (at,))), (sup, ("tuple", (at,)))) and ra[3] == sup)
     ctx.ob("C01.R2", ain, "Dist.all_input_nodes() = inherited inputs plus the evaluation "
                           "point `at` (when set), so `at` is an edge of the graph", ok,
            detail=short(ra or ()), stmt="Dist inputs " + pretty(ra or ())[:160])
@@ -589,8 +604,8 @@ def wiring_obligations(ctx, rule):
     outp = ("a", SELF, "_outputs")
     sts = [(loc, val) for loc, val, _, cond in pr.stores if not cond]
     p0 = n([a for a in pf.params() if a != "self"][0])
-    ok_add = (sts == [(outp, ("call", ("g", "liesel.model.nodes._unique_tuple"),
-                             (outp, ("list", (p0,))), ()))]
+    ok_add = (sts in ([(outp, ("call", ("g", "liesel.model.nodes._unique_tuple"),
+                              (outp, (kind_, (p0,))), ()))] for kind_ in ("list", "tuple"))
               or sts == [(outp, ("op", "+", outp, ("tuple", (p0,))))])
     ctx.ob(rule, pf, "_add_output appends the given node to this node's outputs (keeping "
                      "what is there, no duplicates)", ok_add,
